@@ -2,7 +2,6 @@ package metrics
 
 import (
 	"bytes"
-	"fmt"
 	"net/url"
 	"os"
 	"path/filepath"
@@ -138,8 +137,12 @@ func TargetName(service, host, path, target string) (string, error) {
 
 	targetURL, err := url.Parse(target)
 
+	// The target of a route is URL.String() of a parsed URL and net/url does
+	// not guarantee that this string parses again (e.g. an IPv6 zone with
+	// non-ASCII characters). A metric name must never make the routing table
+	// fail: fall back to the raw string as host.
 	if err != nil {
-		return "", fmt.Errorf("error parsing URL %s: %w", target, err)
+		targetURL = &url.URL{Host: target}
 	}
 
 	var name bytes.Buffer
